@@ -20,6 +20,8 @@ func main() {
 	switch os.Args[1] {
 	case "check":
 		cmdCheck(os.Args[2:])
+	case "replay":
+		cmdReplay(os.Args[2:])
 	case "run":
 		cmdRun(os.Args[2:])
 	case "list":
@@ -69,6 +71,8 @@ func cmdRun(args []string) {
 	verbose := fs.Bool("v", false, "")
 	panicViol := fs.Bool("panics", false, "treat panics as violations")
 	tmo := fs.Int("timeout", 60000, "solver timeout ms")
+	prefix := fs.String("prefix", "", "run only this decision prefix")
+	smtlog := fs.String("smtlog", "", "write worker 0's SMT transcript here")
 	fs.Parse(args)
 	p := loadProg(*repo, *harness)
 	re := regexp.MustCompile(*pat)
@@ -82,7 +86,7 @@ func cmdRun(args []string) {
 	sort.Strings(names)
 	exit := 0
 	for _, n := range names {
-		opt := exec.Options{Workers: *workers, MaxSteps: 2000000, Unwind: *unwind, MaxPaths: *maxPaths, SolverKind: "z3", TimeoutMs: *tmo, OrderPolicy: *policy, MaxViol: 5, SampleEvery: 50, PanicIsViolation: *panicViol, Verbose: *verbose}
+		opt := exec.Options{Workers: *workers, MaxSteps: 2000000, Unwind: *unwind, MaxPaths: *maxPaths, SolverKind: "z3", TimeoutMs: *tmo, OrderPolicy: *policy, MaxViol: 5, SampleEvery: 50, PanicIsViolation: *panicViol, Verbose: *verbose, OnlyPrefix: *prefix, SMTLog: *smtlog}
 		ex := exec.NewExplorer(p, n, hs[n], opt)
 		t0 := time.Now()
 		ex.Explore()
